@@ -79,6 +79,8 @@ def handleC26 (c : Case) : Verdict :=
       .differ "state" s!"model snapshots {rk.snaps.map (·.1)} real {realSnaps.map (·.1)}"
     else if !accept_rewrites allowed r0 none tr then
       .differ "trace-not-in-language" s!"accept_rewrites rejects {kindsOf tr}"
+    else if !freshOK r0 tr then
+      .differ "file-name-reused" "a save hit a name that already existed"
     else if checkOK rk != checkReal then
       .differ "check" s!"model checkOK={checkOK rk} real check={checkReal}"
     else
